@@ -18,6 +18,42 @@ META = {
 }
 
 
+def timer_removed_with_entry(ctx, tag, side):
+    """the converse of the pairing: a timer is removed only for an entry that has just been taken out of the map (or for a timer armed a moment ago in the same
+    call, on a path that does not store its key).  Removing the timer of an entry that stays tracked leaves a stale key behind: DelayQueue::remove panics on
+    an invalid key when that entry is finally removed, or silently removes another request's timer if the slot was reused."""
+    F, P, R = ctx.F, ctx.P, ctx.run
+    from .common import MAP_REMOVALS
+    T = Table(F, side)
+    key_field = T.data_field('delay_queue::Key')
+    n = 0
+    for m in T.methods:
+        if T.is_helper(m):
+            continue
+        ctxs = {b_.id for b_ in T.bodies(m)}
+        for g in T.bodies(m):
+            for bb, t in g.calls():
+                if not callee_is(t, 'DelayQueue::remove', 'DelayQueue::try_remove'):
+                    continue
+                n += 1
+                rs = P.root(P.operand(g, t['args'][1], at=bb), through_params=T.is_helper, callers=ctxs)
+                ok = bool(rs)
+                det = []
+                for r, p in rs:
+                    if P.is_call(r, *MAP_REMOVALS) and key_field in P.fpath(p):
+                        continue
+                    if P.is_call(r, 'DelayQueue::insert', 'DelayQueue::insert_at'):
+                        continue
+                    if P.is_call(r, 'HashMap::drain', 'hash_map::Drain::next', 'Iterator::next'):
+                        continue
+                    ok = False
+                    det.append(P.describe(r) + str(list(norm_path(p))))
+                R.ob(tag, (side + ' table', m.npath.split('::')[-1], 'a timer is removed only with its entry'), ok,
+                     'the key handed to DelayQueue::remove is the key stored in an entry just removed from the map (or of a timer armed in this very call): no tracked entry is left with a stale timer key',
+                     [g.loc(t)], 'key from: %s' % det)
+    return n
+
+
 def removal_pairing(ctx, tag, side):
     F, P, R = ctx.F, ctx.P, ctx.run
     T = Table(F, side)
@@ -36,6 +72,15 @@ def removal_pairing(ctx, tag, side):
                     tms.append(b2)
             if callee_is(t2, 'DelayQueue::clear'):
                 tms.append(b2)
+            # the timer removal may sit in a small helper (a method of the entry type taking the queue): judged with this call as its only context
+            h = F.callee_fn(t2)
+            if h is not None and T.is_helper(h) and h.kind != 'Closure':
+                for x in F.with_descendants(h):
+                    for b3, t3 in x.calls():
+                        if callee_is(t3, 'DelayQueue::remove', 'DelayQueue::try_remove'):
+                            rr = P.root(P.operand(x, t3['args'][1], at=b3), through_params=T.is_helper, callers={g.id})
+                            if rr and all(is_me(r) and key_field in P.fpath(p) for r, p in rr) and cfg.all_paths_pass(x, 0, cfg.exits(x), {b3}):
+                                tms.append(b2)
         hit = None
         for i, b in enumerate(g.blocks):
             if b['cleanup'] or b['term']['k'] != 'switch':
@@ -191,6 +236,8 @@ def run(ctx):
     # ------------------------------------------------------------------ (2) pairing
     T1, n1 = removal_pairing(ctx, 'C11.pairing', 'client')
     T2, n2 = removal_pairing(ctx, 'C11.pairing', 'server')
+    timer_removed_with_entry(ctx, 'C11.pairing', 'client')
+    timer_removed_with_entry(ctx, 'C11.pairing', 'server')
     R.count('client_removal_sites', n1)
     R.count('server_removal_sites', n2)
     if n1 < 4 or n2 < 3:
